@@ -49,6 +49,10 @@ TARGETS = [
     # raises that carry information (StopIteration, the library error with record number and context) are results:
     # the translated method returns an Rt.Signal
     ('cardutil/mciipm.py', 'VbsReader.__next__', {}, 'bytes'),
+    # a wrapped FILE (data + position): write(e) overwrites / extends at the position, seek(n) sets it
+    ('cardutil/mciipm.py', 'VbsWriter.write', {'record': 'bytes'}, None),
+    ('cardutil/mciipm.py', 'VbsWriter.close', {}, None),
+    ('cardutil/mciipm.py', 'VbsWriter.__exit__', {'exc_type': 'none', 'exc_val': 'none', 'exc_tb': 'none'}, None),
 ]
 
 # per class: the fields a method may use, and the wrapped file object as a `sink` (its write(e) appends to self_out) or a
@@ -56,7 +60,8 @@ TARGETS = [
 SELF_STATE = {'Block1014': {'fields': [('remaining_chars', 'int')], 'sink': 'file_obj'},
               'Unblock1014': {'fields': [('buffer', 'bytes')], 'source': 'file_obj'},
               'VbsReader': {'fields': [('record_number', 'int'), ('last_record', 'bytes')], 'source': 'vbs_data',
-                            'signals': True}}
+                            'signals': True},
+              'VbsWriter': {'fields': [('_finalised', 'bool')], 'file': 'out_file'}}
 
 EXC = {'AssertionError': 'assertionError', 'ValueError': 'valueError', 'IndexError': 'indexError',
        'TypeError': 'typeError', 'KeyError': 'keyError'}
@@ -431,6 +436,10 @@ class Translator:
                     raise Untranslatable('cycle() of something that is not a non-empty list literal')
                 return f'(Rt.zipCycle {a} {b})', ('list', ('tuple', ta[1], tb[1]))
             if name == 'sorted' and len(args) == 1:
+                pass
+            if False:
+                pass
+            if name == 'sorted' and len(args) == 1:
                 c, t = self.expr(args[0], env)
                 if t != ('list', 'str'):
                     raise Untranslatable(f'sorted() of {t}')
@@ -469,6 +478,12 @@ class Translator:
                 if t != 'bytes':
                     raise Untranslatable('decode of a non-bytes value')
                 return f'(Rt.allIn {NUMERIC_TABLES[f.value.args[0].value]} {c})', 'bool'
+            if isinstance(f.value, ast.Name) and f.value.id == 'struct' and f.attr == 'pack' and len(node.args) == 2 \
+                    and isinstance(node.args[0], ast.Constant) and node.args[0].value == '>I':
+                c, t = self.expr(node.args[1], env)
+                if t != 'int':
+                    raise Untranslatable('struct.pack of a non-int')
+                return self.hoist(f'(Rt.packI {c})', 'bytes')
             if isinstance(f.value, ast.Name) and f.value.id == 'binascii' and f.attr in ('b2a_hex', 'hexlify') \
                     and len(node.args) == 1:
                 c, t = self.expr(node.args[0], env)
@@ -620,6 +635,32 @@ class Translator:
             name = s.value.func.value.id
             new = ast.Assign(targets=[ast.Name(name)], value=ast.BinOp(ast.Name(name), ast.Add(), ast.List([s.value.args[0]])))
             return self.stmts([new] + rest, env, ret, loop)
+        if isinstance(s, ast.Expr) and isinstance(s.value, ast.Call) and isinstance(s.value.func, ast.Name) \
+                and s.value.func.id == '__file_write__':
+            def go():
+                ec, et = self.expr(s.value.args[0], env)
+                ec = self.coerce(ec, et, 'bytes')
+                return (f'let fw : (Bytes × Int) := (Rt.fwrite self_fdata self_fpos {ec});\n  '
+                        f'let self_fdata : Bytes := fw.1;\n  let self_fpos : Int := fw.2;\n  '
+                        + self.stmts(rest, env, ret, loop))
+            return self.wrap(go)
+        if isinstance(s, ast.Expr) and isinstance(s.value, ast.Call) and isinstance(s.value.func, ast.Name) \
+                and s.value.func.id == '__self_call__':
+            mname = f'{self.cls}_{s.value.args[0].value}'.replace('__', '')
+            fn = self.known.get(f'{self.cls}.{s.value.args[0].value}')
+            if fn is None or self.self_state is None:
+                raise Untranslatable(f'call of the untranslated method {mname}')
+            names = self.state_names
+            args = ' '.join(names)
+            opener = ''
+            for i, n in enumerate(names):
+                path = 'sc' + '.2' * i + ('.1' if i < len(names) - 1 else '')
+                opener += f'let {n} := {path};\n  '
+            if fn.partial:
+                if not self.monadic:
+                    raise NeedMonad()
+                return f'Outcome.bind ({mname} {args}) (fun sc =>\n  {opener}' + self.stmts(rest, env, ret, loop) + ')'
+            return f'let sc := ({mname} {args});\n  {opener}' + self.stmts(rest, env, ret, loop)
         if isinstance(s, ast.AugAssign) and isinstance(s.target, ast.Name):
             new = ast.Assign(targets=[ast.Name(s.target.id)], value=ast.BinOp(ast.Name(s.target.id), s.op, s.value))
             return self.stmts([new] + rest, env, ret, loop)
@@ -807,6 +848,18 @@ class SelfRewriter(ast.NodeTransformer):
 
     def visit_Expr(self, node):
         c = node.value
+        if 'file' in self.spec and isinstance(c, ast.Call) and isinstance(c.func, ast.Attribute) \
+                and isinstance(c.func.value, ast.Attribute) and isinstance(c.func.value.value, ast.Name) \
+                and c.func.value.value.id == 'self' and c.func.value.attr == self.spec['file'] and len(c.args) == 1:
+            arg = self.visit(c.args[0])
+            if c.func.attr == 'write':
+                return ast.Expr(value=ast.Call(func=ast.Name(id='__file_write__', ctx=ast.Load()), args=[arg], keywords=[]))
+            if c.func.attr == 'seek':
+                return ast.Assign(targets=[ast.Name(id='self_fpos', ctx=ast.Store())], value=arg)
+        if isinstance(c, ast.Call) and isinstance(c.func, ast.Attribute) and isinstance(c.func.value, ast.Name) \
+                and c.func.value.id == 'self' and not c.args and not c.keywords:
+            return ast.Expr(value=ast.Call(func=ast.Name(id='__self_call__', ctx=ast.Load()),
+                                           args=[ast.Constant(c.func.attr)], keywords=[]))
         if 'sink' not in self.spec:
             return self.generic_visit(node)
         if isinstance(c, ast.Call) and isinstance(c.func, ast.Attribute) and c.func.attr == 'write' \
@@ -843,6 +896,10 @@ def translate_function(mod_ast, fdef, ptypes, ret, known, cls=None):
         if 'source' in spec:
             params.append(('self_in', 'bytes'))
             names.append('self_in')
+        if 'file' in spec:
+            params.append(('self_fdata', 'bytes'))
+            params.append(('self_fpos', 'int'))
+            names += ['self_fdata', 'self_fpos']
         lean_name = f'{cls}_{fdef.name}'.replace('__', '')
 
         def nest(items):
@@ -851,7 +908,7 @@ def translate_function(mod_ast, fdef, ptypes, ret, known, cls=None):
         def nest_t(ts):
             return ts[0] if len(ts) == 1 else ('tuple', ts[0], nest_t(ts[1:]))
         state_ast = nest([ast.Name(id=n, ctx=ast.Load()) for n in names])
-        state_type = nest_t([t for _, t in spec['fields']] + ['bytes'])
+        state_type = nest_t([t for _, t in params])
         value_type = ret
         ret = state_type if value_type in (None, 'none') else ('tuple', value_type, state_type)
         signals = bool(spec.get('signals'))
@@ -872,6 +929,8 @@ def translate_function(mod_ast, fdef, ptypes, ret, known, cls=None):
         tr.self_state = state_ast
         tr.self_value = cls is not None and value_type not in (None, 'none')
         tr.signals = signals
+        tr.cls = cls
+        tr.state_names = [n for n, _ in params[:len(params) - len(arglist)]] if cls is not None else []
         if cls is not None:
             import copy
             rw = SelfRewriter(tr, cls, SELF_STATE[cls])
